@@ -127,9 +127,11 @@ class Gen:
 
     def data_enum(self, name):
         n = self.rng.randint(2, 4)
+        # an explicit #[repr] on a data-carrying enum changes the in-memory tag only: serde still numbers variants with u32
+        self._data_repr = self.rng.choice(["", "", "#[repr(u8)]\n", "#[repr(u16)]\n", "#[repr(u64)]\n", "#[repr(i8)]\n"])
         if self.rng.random() < 0.5:
             s, t = self.ty(1)
-            decl = self.DERIVE + f"pub enum {name} {{\n" + "".join(f"    V{i}({t}),\n" for i in range(n)) + "}\n\n"
+            decl = self._data_repr + self.DERIVE + f"pub enum {name} {{\n" + "".join(f"    V{i}({t}),\n" for i in range(n)) + "}\n\n"
             tgen = f"        match seed % {n} {{\n" + "".join(f"            {i} => {name}::V{i}(TGen::tgen(mix(seed, 7))),\n" for i in range(n - 1)) + f"            _ => {name}::V{n - 1}(TGen::tgen(mix(seed, 7))),\n        }}"
             to_val = "        match self {\n" + "".join(f"            {name}::V{i}(x) => Val::St(vec![Val::U({i}), x.to_val()]),\n" for i in range(n)) + "        }"
             self.emit(name, f"(u{s})", "newtype-variant-enum", decl, tgen, to_val)
@@ -148,7 +150,7 @@ class Gen:
                     tg.append(f"{name}::V{i} {{ " + ", ".join(f"g{j}: TGen::tgen(mix(seed, {j + 1}))" for j in range(len(fs))) + " }")
                     binds = ", ".join(f"g{j}" for j in range(len(fs)))
                     tv.append(f"            {name}::V{i} {{ {binds} }} => Val::St(vec![Val::U({i}), Val::St(vec![" + ", ".join(f"g{j}.to_val()" for j in range(len(fs))) + "])]),\n")
-            decl = self.DERIVE + f"pub enum {name} {{\n" + "".join(vs) + "}\n\n"
+            decl = self._data_repr + self.DERIVE + f"pub enum {name} {{\n" + "".join(vs) + "}\n\n"
             tgen = f"        match seed % {n} {{\n" + "".join(f"            {i} => {tg[i]},\n" for i in range(n - 1)) + f"            _ => {tg[n - 1]},\n        }}"
             to_val = "        match self {\n" + "".join(tv) + "        }"
             self.emit(name, f"(u{inner})", "struct-variant-enum", decl, tgen, to_val)
